@@ -364,7 +364,8 @@ Definition sr_mul (t : srty) (x y : sval) : option sval :=
   | SBinaryTrust, VB a, VB b => Some (VB (a && b))
   | SMultiplicity, VN a, VN b => option_map VN (u32 (a * b))        (* checked_mul().unwrap() *)
   | SCost, VInf, _ | SCost, _, VInf => Some VInf
-  | SCost, VN a, VN b => option_map VN (u32 (a + b))   (* `a + b`: overflow check (dev profile) *)
+  | SCost, VN a, VN b => option_map VN (u32 (a + b))   (* a.checked_add(b).unwrap(): panics in every profile
+                                                          (before /repo eb5e08fe819: unchecked `a + b`) *)
   | SConfidence, VF a, VF b => Some (VF (PrimFloat.mul a b))
   | SFuzzy, VF a, VF b => Some (VF (fmin a b))
   | _, _, _ => None
@@ -395,25 +396,6 @@ Fixpoint sr_eval (t : srty) (a b c : sval) (e : ex) : option sval :=
   | XOne => obind (sr_new t a) (fun _ => sr_new t (sr_one t))
   | XAdd x y => obind (sr_eval t a b c x) (fun u => obind (sr_eval t a b c y) (fun v => sr_add t u v))
   | XMul x y => obind (sr_eval t a b c x) (fun u => obind (sr_eval t a b c y) (fun v => sr_mul t u v))
-  end.
-
-(* release profile (no overflow checks): the unchecked `a + b` of Cost::mul wraps modulo
-   2^32; the checked_add/checked_mul of Multiplicity still panic *)
-Definition sr_mul_rel (t : srty) (x y : sval) : option sval :=
-  match t, x, y with
-  | SCost, VN a, VN b => Some (VN ((a + b) mod u32_max1))
-  | _, _, _ => sr_mul t x y
-  end.
-
-Fixpoint sr_eval_rel (t : srty) (a b c : sval) (e : ex) : option sval :=
-  match e with
-  | XA => sr_new t a
-  | XB => sr_new t b
-  | XC => sr_new t c
-  | XZero => obind (sr_new t a) (fun _ => sr_new t (sr_zero t))
-  | XOne => obind (sr_new t a) (fun _ => sr_new t (sr_one t))
-  | XAdd x y => obind (sr_eval_rel t a b c x) (fun u => obind (sr_eval_rel t a b c y) (fun v => sr_add t u v))
-  | XMul x y => obind (sr_eval_rel t a b c x) (fun u => obind (sr_eval_rel t a b c y) (fun v => sr_mul_rel t u v))
   end.
 
 (* the expressions evaluated by an `sr` case (same order as harness/h_algebra sr_exprs) *)
@@ -508,7 +490,7 @@ Inductive acase :=
 | CProps (items : list N) (f : tbl) (e : N) (b : list N) (z : N)
 | CPow (items : list N) (arity : nat)
 | CSr (t : srty) (a b c : sval)
-| CSrRel (t : srty) (a b c : sval)      (* harness built with the release profile *)
+| CSrRel (t : srty) (a b c : sval)      (* harness built with the release profile: same semantics *)
 | CSrNew (t : srty) (a : sval).
 
 Inductive aout :=
@@ -556,7 +538,7 @@ Definition model_run (c : acase) : aout :=
   | CProps i f e b z => OProps (get_single_function_properties E i (top f) e (vop b) z)
   | CPow i n => pow_out i n
   | CSr t a b c => OSr (map (sr_eval t a b c) sr_exprs)
-  | CSrRel t a b c => OSr (map (sr_eval_rel t a b c) sr_exprs)
+  | CSrRel t a b c => OSr (map (sr_eval t a b c) sr_exprs)
   | CSrNew t a => ONew (sr_new t a)
   end.
 
